@@ -399,7 +399,7 @@ type c19Entry struct {
 // c19PickEntry: the module root, or a container / list reached through containers only
 func c19PickEntry(r *gen.Rng, root *tree.SNode, data *tree.Cont) c19Entry {
 	e := c19Entry{kind: "root", s: root, data: data}
-	if r.Chance(6, 10) {
+	if r.Chance(7, 10) {
 		return e
 	}
 	cur := e
@@ -666,13 +666,14 @@ func c19Escapes(ctx *core.Ctx, r *gen.Rng, n int) {
 // C19: XML export and import are inverse on every data tree.
 func C19(ctx *core.Ctx) error {
 	ctx.Imports = "Val.Model Tree.Schema Tree.Editor Tree.XmlEsc Tree.XmlW Tree.XmlR Check.C19Check"
-	ctx.Rule = "CDoc = generated choice-free schema (containers, keyed lists, leaf-lists, 12 leaf types, defaults) or the hand-written pair of modules (uses + augment across two namespaces, binary/empty/leafref/int8/boolean) x conforming data whose strings carry markup characters, quotes, ]]>, every white-space class at the edges and inside, non-ASCII (and, rarely, characters XML cannot carry) x selection (module, container, list) x writer configuration (WriteXMLDoc, WriteXML, XMLWtr{EnumAsIds}) x 2 random sibling interleavings of the written document read back; CEsc/CUnesc = random byte strings through patch/xml EscapeText and the decoder; distinct by SHA-256 of the case term; non-trivial = the selection holds data / the text is non-empty"
+	ctx.Rule = "CDoc = generated choice-free schema (containers, keyed lists, leaf-lists, 12 leaf types, defaults) or the hand-written pair of modules (uses + augment across two namespaces, binary/empty/leafref/int8/boolean) x conforming data whose strings carry markup characters, quotes, ]]>, every white-space class at the edges and inside, non-ASCII (and, rarely, characters XML cannot carry) x selection (module, container, list) x writer configuration (WriteXMLDoc, WriteXML, XMLWtr{EnumAsIds}) x 2 (XMLWtr2) or 1 (streaming writer) random sibling interleavings of the written document read back; CEsc/CUnesc = random byte strings through patch/xml EscapeText and the decoder; distinct by SHA-256 of the case term; non-trivial = the selection holds data / the text is non-empty"
+	ctx.ShardMax = 160000
 	r := gen.New(ctx.Seed)
 	nTrees := ctx.Scale(200, 3000)
 	if ctx.Tier == "search" {
 		nTrees = 4000
 	}
-	opts := tree.GenOpts{MaxDepth: 3, MaxKids: 4, Lists: true, Defaults: true, LeafLists: true}
+	opts := tree.GenOpts{MaxDepth: 3, MaxKids: 5, Lists: true, Defaults: true, LeafLists: true}
 	for n := 0; n < nTrees; n++ {
 		tr := r.Fork(uint64(n))
 		var yang string
@@ -691,7 +692,7 @@ func C19(ctx *core.Ctx) error {
 			if yang, m, root, err = tree.GenSchema(tr, opts); err != nil {
 				return fmt.Errorf("generated schema does not load: %v\n%s", err, yang)
 			}
-			data = tree.GenData(tr, root, 75, 3)
+			data = tree.GenData(tr, root, 85, 3)
 			ctx.Count("schema:generated")
 		}
 		invalidPct := 0
@@ -704,8 +705,8 @@ func C19(ctx *core.Ctx) error {
 		if n%4 == 1 {
 			cfgs = []int{0, 2}
 		}
-		for _, cfg := range cfgs {
-			c19Doc(ctx, tr.Fork(uint64(100+cfg)), yang, m, root, data, e, cfg, 2)
+		for i, cfg := range cfgs {
+			c19Doc(ctx, tr.Fork(uint64(100+cfg)), yang, m, root, data, e, cfg, 2-i)
 		}
 	}
 	c19Escapes(ctx, r.Fork(99999), ctx.Scale(150, 3000))
